@@ -339,8 +339,9 @@ func c15cases(c *h.Ctx) []fileCase {
 	impY := "tasks:\n  from-yaml:\n    command: [\"true\"]\n    env: {A: \"1\"}\npipelines:\n  py: [{task: from-yaml}]\n"
 	impJ := "{\"tasks\": {\"from-json\": {\"command\": [\"true\"], \"env\": {\"A\": \"1\"}}}, \"pipelines\": {\"pj\": [{\"task\": \"from-json\"}]}}\n"
 	impT := "[tasks.from-toml]\ncommand = [\"true\"]\n[tasks.from-toml.env]\nA = \"1\"\n[[pipelines.pt]]\ntask = \"from-toml\"\n"
-	mixAux := map[string]string{"m/b.yaml": impY, "m/c.json": impJ, "m/d.toml": impT, "m/dir/e.yaml": strings.ReplaceAll(impY, "from-yaml", "from-dir"), "m/chain.yaml": "import: [\"c.json\"]\ntasks:\n  chain: {command: [\"true\"]}\n"}
-	orders := [][]string{{"m/c.json", "m/b.yaml"}, {"m/b.yaml", "m/c.json"}, {"m/d.toml", "m/b.yaml"}, {"m/b.yaml", "m/d.toml"}, {"m/c.json", "m/d.toml", "m/b.yaml"}, {"m/c.json", "m/dir"}, {"m/dir", "m/c.json", "m/b.yaml"}, {"m/chain.yaml", "m/b.yaml"}, {"m/d.toml", "m/chain.yaml", "m/dir"}, {"m/c.json", "m/c.json", "m/b.yaml"}}
+	mixAux := map[string]string{"m/b.yaml": impY, "m/c.json": impJ, "m/d.toml": impT, "m/dir/e.yaml": strings.ReplaceAll(impY, "from-yaml", "from-dir"), "m/chain.yaml": "import: [\"c.json\"]\ntasks:\n  chain: {command: [\"true\"]}\n",
+		"m/dir2/a.yaml": "import: [\"../b.yaml\"]\ntasks:\n  d2a: {command: [\"true\"]}\n", "m/dir2/z.yaml": "tasks:\n  d2z: {command: [\"true\"]}\npipelines:\n  pz: [{task: d2z}]\n"}
+	orders := [][]string{{"m/c.json", "m/b.yaml"}, {"m/b.yaml", "m/c.json"}, {"m/d.toml", "m/b.yaml"}, {"m/b.yaml", "m/d.toml"}, {"m/c.json", "m/d.toml", "m/b.yaml"}, {"m/c.json", "m/dir"}, {"m/dir", "m/c.json", "m/b.yaml"}, {"m/chain.yaml", "m/b.yaml"}, {"m/d.toml", "m/chain.yaml", "m/dir"}, {"m/c.json", "m/c.json", "m/b.yaml"}, {"m/dir2"}, {"m/dir2", "m/c.json"}, {"m/d.toml", "m/dir2", "m/dir"}}
 	for oi, ord := range orders {
 		var l []interface{}
 		for _, x := range ord {
